@@ -14,7 +14,7 @@ def opt_int_combos(names, step_name=None):
     for combo in itertools.product(*[(None, 'int')] * len(names)):
         d = dict(zip(names, combo))
         if step_name and d[step_name] == 'int':
-            for sg in ('pos', 'neg'):
+            for sg in ('pos', 'neg', 'zero'):
                 e = dict(d)
                 e[step_name] = sg
                 out.append(e)
@@ -30,6 +30,8 @@ def combo_name(d):
 def mk_opt(S, name, kind):
     if kind is None:
         return None
+    if kind == 'zero':
+        return 0                  # (a slice step of 0: ValueError in every mode)
     v = S.int(name)
     if S.values is None:
         if kind == 'pos':
@@ -40,6 +42,8 @@ def mk_opt(S, name, kind):
 
 
 def rv(vals, name, kind):
+    if kind == 'zero':
+        return 0
     return None if kind is None else vals[name]
 
 
@@ -67,6 +71,9 @@ def _indices_shapes():
                "and the triple is in canonical (in-range) form")
 def indices_post(C, args, kwargs, out):
     s, n = args
+    if isinstance(s.step, int) and s.step == 0:
+        yield ('zero-step-raises-ValueError', out.kind == 'exc' and out.value.cls.is_subclass(C.interp.builtins['ValueError']))
+        return
     if out.kind == 'exc':
         yield ('raises', False, f'unexpected {out.value.cls.name}')
         return
@@ -88,6 +95,9 @@ def indices_post(C, args, kwargs, out):
                "n-1-p of the positions p that key selects, in mirrored order (same step sign)")
 def offset_post(C, args, kwargs, out):
     key, n = args
+    if isinstance(key.step, int) and key.step == 0:
+        yield ('zero-step-raises-ValueError', out.kind == 'exc' and out.value.cls.is_subclass(C.interp.builtins['ValueError']))
+        return
     if out.kind == 'exc':
         yield ('raises', False, f'unexpected {out.value.cls.name}')
         return
